@@ -12,7 +12,7 @@ import re
 
 from .. import bitflow as bf
 from ..mir import call_matches, callee_name, op_local, op_const_int, place_str
-from ..flow import resolve_place, arg_place, origins, err_return_blocks, ok_return_blocks, writes_to_field
+from ..flow import resolve_place, arg_place, origins, err_return_blocks, ok_return_blocks, writes_to_field, expr as fexpr
 from ..src import find_all, lit_int, expr_text, walk
 
 REF = os.path.join(os.path.dirname(os.path.dirname(os.path.abspath(__file__))), "refs", "rfc4648.json")
@@ -1040,11 +1040,42 @@ def check_reads(ctx, ref, dec4, dsize):
             og = origins(rd, t["args"][0])
             if og and all(o[0] == "call" and o[2] in fill_paths for o in og):
                 prop = True
+    # path form: once the filling function has returned Err, read() cannot return Ok without asking it again
+    rcfg = rd.cfg()
+    fill_blocks = [bb for bb, t in rd.calls() if callee_name(t) in fill_paths]
+    oks_rd = set(ok_return_blocks(rd))
+    swallowed = []
+    n_tested = 0
+    for x, blk in enumerate(rd.blocks):
+        t = blk["term"]
+        if t["k"] != "switch":
+            continue
+        e = fexpr(rd, t["d"])
+        m1 = re.fullmatch(r"discr\((.*)\)", e)
+        if not m1:
+            continue
+        inner = m1.group(1)
+        via_branch = re.fullmatch(r"Try::branch\((.*)\)", inner)
+        src_e = via_branch.group(1) if via_branch else inner
+        if not any(src_e == fexpr(rd, {"k": "copy", "place": rd.blocks[fb]["term"]["dest"]}) for fb in fill_blocks):
+            continue
+        n_tested += 1
+        succs = list(zip(t["vals"], t["targets"])) + [(None, t["otherwise"])]
+        err_targets = [tg for v, tg in succs if v == "1"] or ([t["otherwise"]] if "0" in t["vals"] and len(t["vals"]) == 1 else [])
+        for tg in err_targets:
+            reach = rcfg.reachable_from(tg, removed=fill_blocks)
+            bad = sorted(reach & oks_rd)
+            ctx.instance("LEN-ERROR", {"fn": rd.path, "err_edge": "bb%d->bb%d" % (x, tg), "reaches_ok_return": bad})
+            if bad:
+                swallowed.append((x, tg, bad))
+    if swallowed:
+        ctx.violation("LEN-ERROR", rd.path, "error-path-returns-ok", "after the buffer-filling function returned Err, read() can still return Ok (edges %s): "
+                      "the length error is consumed and the stream ends as if complete" % ["bb%d->bb%d" % (a, b_) for a, b_, _ in swallowed], sites=[rd.loc])
     ctx.instance("LEN-ERROR", {"fn": rd.path, "fill_calls": ncalls, "error_propagated": prop})
     if ncalls == 0 and rd.path not in fill_paths:
         ctx.anchor("LEN-ERROR", "read/fill-call", "Base64Decoder::read does not call the buffer-filling function")
-    elif not prop and rd.path not in fill_paths:
-        ctx.violation("LEN-ERROR", rd.path, "not-propagated", "the error of the buffer-filling function is not returned by read(): a length error would be swallowed", sites=[rd.loc])
+    elif n_tested == 0 and rd.path not in fill_paths:
+        ctx.violation("LEN-ERROR", rd.path, "not-propagated", "the result of the buffer-filling function is not inspected by read() (no Ok/Err test of it): a length error would be swallowed", sites=[rd.loc])
 
 
 # =============================================================================================
